@@ -512,6 +512,21 @@ func c10MapHeavy(rng *lp.Rand) []byte {
 		variants = append(variants, ref(n))
 		mapping[strings.ToLower(n)] = "#/components/schemas/" + n
 	}
+	// several mapping keys for one variant (aliases), in a second sum so that the first keeps generating
+	aliasMapping := map[string]any{}
+	for _, n := range objs {
+		for _, suffix := range []string{"", "_v2", "-alias", "0"} {
+			aliasMapping[strings.ToLower(n)+suffix] = "#/components/schemas/" + n
+		}
+	}
+	schemas["SumAliases"] = map[string]any{"oneOf": variants, "discriminator": map[string]any{"propertyName": "kind", "mapping": aliasMapping}}
+	// mutually recursive schemas where one member needs validation only through the back-reference, declared in
+	// both orders; and a diamond of shared members
+	schemas["RecNode"] = map[string]any{"type": "object", "properties": map[string]any{"peer": ref("RecPeer"), "weight": map[string]any{"type": "number"}, "alt": ref("RecAlt")}}
+	schemas["RecPeer"] = map[string]any{"type": "object", "properties": map[string]any{"node": ref("RecNode"), "nodes": map[string]any{"type": "array", "items": ref("RecNode")}}}
+	schemas["RecAlt"] = map[string]any{"type": "object", "properties": map[string]any{"back": ref("RecPeer"), "tag": map[string]any{"type": "string"}}}
+	schemas["AaaUsesRec"] = map[string]any{"type": "object", "properties": map[string]any{"p": ref("RecPeer"), "a": ref("RecAlt")}}
+	schemas["ZzzUsesRec"] = map[string]any{"type": "object", "properties": map[string]any{"a": ref("RecAlt"), "n": ref("RecNode")}}
 	schemas["SumDisc"] = map[string]any{"oneOf": variants, "discriminator": map[string]any{"propertyName": "kind", "mapping": mapping}}
 	schemas["SumFields"] = map[string]any{"oneOf": variants}
 	schemas["AnyPrim"] = map[string]any{"anyOf": []any{map[string]any{"type": "string"}, map[string]any{"type": "integer"}, map[string]any{"type": "boolean"}}}
@@ -525,7 +540,7 @@ func c10MapHeavy(rng *lp.Rand) []byte {
 	for _, n := range shuf() {
 		schemas["Scalar"+strings.Title(n)+"Value"] = prim()
 	}
-	objs = append(objs, "SumDisc", "SumFields")
+	objs = append(objs, "SumDisc", "SumFields", "RecNode", "RecPeer", "AaaUsesRec", "ZzzUsesRec", "SumAliases")
 	content := func() map[string]any {
 		c := map[string]any{"application/json": map[string]any{"schema": ref(lp.Pick(rng, objs))}}
 		if rng.Chance(40) {
@@ -590,6 +605,16 @@ func c10MapHeavy(rng *lp.Rand) []byte {
 			}
 		}
 		o := map[string]any{"operationId": id, "responses": resps, "tags": shuf()[:1]}
+		if rng.Chance(50) {
+			// descriptions of 1 to 16 lines on deprecated operations (the doc comment gets a deprecation notice)
+			var lines []string
+			for k := 1 + rng.Intn(16); k > 0; k-- {
+				lines = append(lines, "Line "+strings.Repeat("word ", 1+rng.Intn(12))+".")
+			}
+			o["description"] = strings.Join(lines, "\n")
+			o["deprecated"] = rng.Chance(70)
+			o["summary"] = "Summary of " + id
+		}
 		var params []any
 		for i, n := range shuf() {
 			in := []string{"query", "header", "cookie"}[i%3]
@@ -890,7 +915,21 @@ func c10RaceChild() {
 	}
 	deadline := time.Now().Add(budget)
 	// small documents first, so that many different template paths run before the budget ends
-	sort.SliceStable(docs, func(a, b int) bool { return len(docs[a].spec) < len(docs[b].spec) })
+	prio := func(d *c10Doc) int {
+		switch d.label {
+		case "map-heavy":
+			return 0
+		case "media-masks", "past-failures":
+			return 1
+		}
+		return 2
+	}
+	sort.SliceStable(docs, func(a, b int) bool {
+		if pa, pb := prio(docs[a]), prio(docs[b]); pa != pb {
+			return pa < pb
+		}
+		return len(docs[a].spec) < len(docs[b].spec)
+	})
 	n := 0
 	for _, d := range docs {
 		if time.Now().After(deadline) {
